@@ -80,7 +80,9 @@ def register(claim):
         'numbering.  Decides "no singular primitive is reachable unguarded" for all models/states; '
         'a deleted or non-positive guard is reported at file:line.  R3.5: the derivative of the free-joint '
         'quaternion integration at zero angular velocity is the derivative of the exponential map, decided over '
-        'dual numbers with the epsilon guards read as a formal infinitesimal (Laurent series).',
+        'dual numbers with the epsilon guards read as a formal infinitesimal (Laurent series).  R3.7: init stores the '
+        'q, qd it is given.  R3.8: the joint read-back, executed for all 14 hinge / slide stack patterns, evaluates no '
+        'arctan2 at the origin (found defect D10).',
         'Trusted: python ast, name-based call-graph over-approximation, exception table '
         'specs/c03_exceptions.json.  Not decided: equality with finite differences elsewhere (numeric); NaN '
         'through unselected where-arms at switching points (excluded by the property).',
